@@ -137,6 +137,18 @@ type ReplayFile struct {
 	Minimised bool              `json:"minimised"`
 	Schedule  []string          `json:"schedule,omitempty"`
 	Events    []string          `json:"events,omitempty"`
+	// where in which search process the run was executed: a violation that does not reproduce in a fresh process
+	// is re-executed together with the runs that preceded it there (state surviving from one run to the next)
+	Proc *ProcInfo `json:"proc,omitempty"`
+}
+
+type ProcInfo struct {
+	Seed0   uint64 `json:"seed0"`
+	Worker  int    `json:"worker"`
+	Workers int    `json:"workers"`
+	Start   int    `json:"start"`  // first run number executed by that process
+	RunNo   int    `json:"run_no"` // run number of this run
+	Recheck int    `json:"recheck"`
 }
 
 func sparse(vec []uint32) map[string]uint32 {
